@@ -217,10 +217,20 @@ func runServe(fields []string) string {
 					if u2.RawPath != "" {
 						m2 = u2.RawPath
 					}
+					// the request is a trailing-slash candidate; its slash-adjusted form (slash added to / removed from the
+					// string the router matched) is matched directly; and the target the Location leads to is routed
+					// exactly like that adjusted form. (Which route that is, is not the redirecting one when a
+					// higher-priority route matches the adjusted path with the slash inside a catch-all: /foo*{v} next
+					// to /{x}/ for the request /foo. The property asks for a Location that resolves to the adjusted path.)
+					adjMatched := path + "/"
+					if len(path) > 1 && strings.HasSuffix(path, "/") {
+						adjMatched = path[:len(path)-1]
+					}
 					r1, tsr1 := f.Reverse(method, host, path)
 					r2, tsr2 := f.Reverse(method, host, m2)
-					if r1 == nil || !tsr1 || r2 != r1 || tsr2 {
-						bad("following Location %q (target %q) does not reach the redirecting route directly: before=%s after=%s", loc, m2, lkResult(r1, tsr1), lkResult(r2, tsr2))
+					r3, tsr3 := f.Reverse(method, host, adjMatched)
+					if r1 == nil || !tsr1 || r3 == nil || tsr3 || r2 != r3 || tsr2 {
+						bad("following Location %q (target %q) is not routed like the slash-adjusted path: request=%s adjusted=%s after=%s", loc, m2, lkResult(r1, tsr1), lkResult(r3, tsr3), lkResult(r2, tsr2))
 					}
 				}
 			}
@@ -319,6 +329,14 @@ func genServe(r *Rng, tier string, n int, emit func(string)) {
 			reps := 1 + cr.Intn(min(3, nMeth))
 			for j := 0; j < reps; j++ {
 				routes = append(routes, fmt.Sprintf("%s,%s,%d,%d", Pick(cr, methods), hx(p), Pick(cr, []int{0, 0, 0, 1, 1, 2, 2, 3, 4}), len(routes)+1))
+			}
+		}
+		if cr.Chance(12) {
+			// hostnames extending one another / static next to parameterised hosts with slash-toggled paths
+			fm := Pick(cr, methods)
+			for _, p := range genHostFamily(cr) {
+				pats = append(pats, p)
+				routes = append(routes, fmt.Sprintf("%s,%s,%d,%d", fm, hx(p), Pick(cr, []int{0, 0, 1, 2}), len(routes)+1))
 			}
 		}
 		if cr.Chance(18) {
